@@ -394,6 +394,24 @@ pub fn txt_string(t: Txt) -> String {
 pub fn txt_eq(a: Txt, b: Txt) -> bool {
     a.n == b.n && (a.n < 1 || a.c[0] == b.c[0]) && (a.n < 2 || a.c[1] == b.c[1])
 }
+/// compare t (<= 2 chars) with the constant text "[object Object]" by code point: -1 (t smaller) or 1; never equal
+pub fn txt_cmp_obj(t: Txt) -> i32 {
+    let o = ['[', 'o'];
+    let mut k = 0;
+    while k < 2 {
+        if k >= t.n {
+            return -1; // t is a proper prefix of the longer text
+        }
+        if (t.c[k] as u32) < (o[k] as u32) {
+            return -1;
+        }
+        if (t.c[k] as u32) > (o[k] as u32) {
+            return 1;
+        }
+        k += 1;
+    }
+    -1
+}
 /// lexicographic comparison by code point (reference): -1 / 0 / 1
 pub fn txt_cmp(a: Txt, b: Txt) -> i32 {
     let mut k = 0;
